@@ -685,6 +685,15 @@ def wide():
     for (c, r) in [(17, 2), (2, 17), (8, 8), (33, 2), (2, 33)]:
         add("C07", f"c07_remove_row_u8_wide_{c}x{r}", f"c07::remove_u8_b::<72>(true, {c}, {r})", max(c, r) + 3, Q if (c, r) in [(17, 2), (2, 17), (8, 8)] else T)
     add("C07", "c07_remove_col_u8_wide_8x8", "c07::remove_u8_b::<72>(false, 8, 8)", 11, T)
+    # sorts of 2 or 3 long lines (17 / 33 / 65 cells each): the permutation is small, the line is long
+    # (sorting 17 lines is beyond CBMC here: std's sort on 17 symbolic keys does not finish in 30 minutes)
+    for e, nm in ROW_ENTRIES.items():
+        for (c, r) in [(2, 17), (3, 33), (2, 65)]:
+            add("C16", f"c16_{nm}_owned_long_{c}x{r}_l{r - 1}", f"c16::sort_long({e}, 0, {c}, {r}, 0, 0, {c}, {r}, {r - 1})", max(c, r) + 3, T, stubs=[SORT_STUB])
+    for e, nm in COL_ENTRIES.items():
+        for (c, r) in [(17, 2), (33, 3), (65, 2)]:
+            add("C17", f"c17_{nm}_owned_long_{c}x{r}_l{c - 1}", f"c16::sort_long({e}, 0, {c}, {r}, 0, 0, {c}, {r}, {c - 1})", max(c, r) + 3, T, stubs=[SORT_STUB])
+    add("C17", "c17_sort_by_col_view_long_65x2_l64", "c16::sort_long(6, 1, 66, 2, 1, 0, 66, 2, 64)", 70, T, stubs=[SORT_STUB], also=["C04"])
     # 72-byte elements
     for op, nm in FAT_INPLACE.items():
         if op == 6:
@@ -713,7 +722,7 @@ def engb():
         add("C03", f"b_view_{parent}", f"engb::b_view({parent})", 1, "native", kind="panic")
     for w in range(5):
         add("C20", f"b_ctor_{w}", f"engb::b_ctor({w})", 1, "native", kind="panic")
-    for op in range(5):
+    for op in range(7):
         add("C11", f"b_state_{op}", f"engb::b_state({op})", 1, "native", kind="pass")
     for meth in range(5):
         add("C10", f"b_flatten_{meth}", f"engb::b_flatten({meth})", 1, "native", kind="pass")
